@@ -60,7 +60,9 @@ class Standardiser(PoolDecorator):
         supply = self.target.supply
         by_supply = _clamp(supply - self.backlog, value, supply + self.surplus)
         by_limits = _clamp(self.minimum, by_supply, self.maximum)
-        return type(value)(by_limits)
+        # preserve the type of value, unless a fractional limit would be truncated
+        typed = type(value)(by_limits)
+        return typed if typed == by_limits else by_limits
 
     def __init__(
         self,
